@@ -1,4 +1,5 @@
 from copy import copy
+from datetime import date
 import os
 from typing import (  # noqa: F401
     Any,
@@ -102,20 +103,22 @@ class Node:
 
     # Functions for Scalar nodes
 
-    def get_value(self) -> ScalarType:
+    def get_value(self) -> Union[ScalarType, date]:
         """Returns the value of a scalar node.
 
         Use :meth:`is_scalar` to check which type the node has.
         """
         try:
             return self.__get_value()
-        except (ValueError, KeyError, IndexError, OverflowError) as e:
+        except (
+                ValueError, KeyError, IndexError, OverflowError,
+                AttributeError) as e:
             # e.g. 0x_ or !!int abc, there's something wrong with the input
             raise SeasoningError(
                     'Invalid value "{}" for a scalar with tag {}: {}'.format(
                         self.yaml_node.value, self.yaml_node.tag, e))
 
-    def __get_value(self) -> ScalarType:
+    def __get_value(self) -> Union[ScalarType, date]:
         """Converts the scalar's text to a value, may raise."""
         if self.yaml_node.tag == 'tag:yaml.org,2002:str':
             return str(self.yaml_node.value)
@@ -133,6 +136,10 @@ class Node:
                 self.yaml_node))
         if self.yaml_node.tag == 'tag:yaml.org,2002:null':
             return None
+        if self.yaml_node.tag == 'tag:yaml.org,2002:timestamp':
+            # is_scalar(date), gives a date or a datetime like loading does
+            return cast(date, _scalar_constructor.construct_yaml_timestamp(
+                self.yaml_node))
         raise RuntimeError('This node with tag "{}" is not of the right type'
                            ' for get_value()'.format(self.yaml_node.tag))
 
@@ -1131,7 +1138,7 @@ class UnknownNode:
             raise RecognitionError(
                     'Required key "{}" not found'.format(attribute))
 
-    def __get_value(self, node: Node) -> ScalarType:
+    def __get_value(self, node: Node) -> Union[ScalarType, date]:
         """Gets the value of a scalar node while recognizing.
 
         Raises:
